@@ -14,7 +14,7 @@ def more():
     import fam_hist
 
     for pid in ("C01", "C02", "C03", "C06", "C07", "C10", "C11"):
-        reg[pid] = dict(family=fam_hist.Family(pid), lean=[f"TinyFlux.Props.{pid}"], gen=("Utils", "Forward") if pid == "C10" else ("Utils",), ref=f"5/{pid}",
+        reg[pid] = dict(family=fam_hist.Family(pid), lean=[f"TinyFlux.Props.{pid}"], gen=("Utils", "Forward") if pid == "C10" else (("Utils", "IndexTables") if pid in ("C01", "C06") else ("Utils",)), ref=f"5/{pid}",
                         replay=fam_hist.replay)
     import fam_io
 
